@@ -6,6 +6,7 @@ import (
 	"time"
 
 	"github.com/go-logr/logr"
+	"k8s.io/apimachinery/pkg/api/errors"
 	"k8s.io/apimachinery/pkg/runtime"
 	ctrl "sigs.k8s.io/controller-runtime"
 	"sigs.k8s.io/controller-runtime/pkg/client"
@@ -44,7 +45,11 @@ func (r *revisionReconciler) Reconcile(
 			Name:      prev.Name,
 			Namespace: objectSet.ClientObject().GetNamespace(),
 		}
-		if err := r.client.Get(ctx, key, prevObjectSet.ClientObject()); err != nil {
+		if err := r.client.Get(ctx, key, prevObjectSet.ClientObject()); errors.IsNotFound(err) {
+			// Previous revisions may have been garbage collected (history limit) since they were listed,
+			// they can't contribute a higher revision number anymore.
+			continue
+		} else if err != nil {
 			return res, fmt.Errorf("getting previous revision: %w", err)
 		}
 
